@@ -92,6 +92,7 @@ theorem step_matches_spec_partial (locked : α → Bool) (s : PW α β) (hs : In
   | refusedWrapped =>
     refine ⟨rfl, ?_⟩
     simp [step, Spec.step, PW.rollbackTo, LCS.popN, same_refl]
+  | readFail attr => exact ⟨rfl, same_refl _⟩
 
 /-- the sentence of the property, spelled out: under the guard a refused request leaves set, pending changes
 and change log exactly as they were -/
